@@ -99,6 +99,7 @@ mod verif {
         let other = any_rec();
         let before_r = spec(&m, &r);
         let before_o = spec(&m, &other);
+        kani::cover!(matches!(before_r, Some(Some(_))) && matches!(before_o, Some(Some(_))) && !same_key(&m, &r, &other), "reachable: two matching records of different keys, both with a floor");
         // has_seen
         let expect_seen = match before_r { None => true, Some(None) => false, Some(Some(f)) => pos(&m, &r) < f };
         assert!(m.has_seen(&r) == expect_seen, "has_seen(r) <=> r does not match or lies below the floor of its key");
